@@ -28,9 +28,9 @@ EXTENDS Pool, Json, IOUtils
 
 ScJ == JsonDeserialize(IOEnv.POOLSC)
 ToSet(s) == {s[i] : i \in 1..Len(s)}
-FixTx(x) == [ins |-> ToSet(x.ins), refs |-> ToSet(x.refs), outs |-> ToSet(x.outs), kind |-> x.kind, w |-> x.w]
+FixTx(x) == [ins |-> ToSet(x.ins), refs |-> ToSet(x.refs), outs |-> ToSet(x.outs), kind |-> x.kind, w |-> x.w, lo |-> x.lo, hi |-> x.hi]
 FixSc(c) ==
-    [n |-> c.n, v1ok |-> c.v1ok, maxpool |-> c.maxpool, maxblock |-> c.maxblock, parent |-> c.parent, height |-> c.height, body |-> c.body,
+    [n |-> c.n, maxpool |-> c.maxpool, maxblock |-> c.maxblock, parent |-> c.parent, height |-> c.height, body |-> c.body,
      creates |-> [b \in 1..c.n |-> ToSet(c.creates[b])],
      spends  |-> [b \in 1..c.n |-> ToSet(c.spends[b])],
      ntx |-> c.ntx, tx |-> [t \in 1..c.ntx |-> FixTx(c.tx[t])]]
@@ -120,7 +120,7 @@ TRebase ==
     /\ Keep
 
 TTxSet ==
-    /\ Step("TxSet") /\ Fresh
+    /\ Step("TxSet") /\ Idle          \* also right after a block, before the pool was looked at (the call revalidates itself)
     /\ act' = [op |-> "TxSet", x |-> FixInst(Ev.x), basis |-> Ev.basis]
     /\ reply' = [NoReply EXCEPT !.r = Ev.r, !.ids = Ev.ids, !.k = Ev.k]
     /\ obs' = [ObsOK EXCEPT !.proofs = Ev.proofs, !.nopanic = Ev.nopanic]
